@@ -24,11 +24,11 @@ C = {
  'C16': ('model_checking', 'Layout bookkeeping model-checked with the real constants (256 ids, chunk 16) over all interleavings of registration and table creation; registry traces for 0..257 registered run-time-made types (struct / array / pointer shapes, ecs.Relation first / later / nested / absent), three interleavings, both builds: ids, ComponentIDs, ComponentInfo, ResourceIDs judged by Registry.tla; every registered id probed for full usability; over-limit and locked registration must panic and roll back.', '5/C16', 'TLC model checking (MCRegistry) + TLC trace validation of registry traces (TraceRegistry.tla)'),
  'C17': ('model_checking', 'Entity pool model-checked (MCPool); twin worlds: the original keeps running, a fresh or used-and-reset world with another capacity increment loads the JSON-round-tripped dump and receives the same creations/removals: TLC checks identical handles, pool dumps, Alive answers for every handle ever issued, identical second dump; loading into a used world must panic.', '5/C17', WORLD_T + '; EntityPool.tla, twin-world comparison lines'),
  'C15': ('model_checking', 'ResetGivesInit model-checked; twin worlds: after every Reset a fresh world with the same registrations, filters and listener is created and both receive the same operations; TLC validates both against the specification (after Reset the ghost is the initial world) and checks identical handles, pool dumps, entity tables, event bags, query results and resources, over several reset cycles.', '5/C15', WORLD_T),
+ 'C18': ('model_checking', 'Builder state machine with the compile cache model-checked over all call sequences (MCGeneric: every query uses the filter of the current configuration); every generic call (MapN New/NewWith/NewBatch[Q]/Add/Assign/Remove/AddBatch[Q]/RemoveBatch[Q]/RemoveEntities/Get for arities 1-12, Map[T], Exchange, FilterN builder methods, Register/Unregister and Query for arities 0-12) is executed on the real world through generated adapters and logged as the ID-based operation it documents as its equivalent, so the same layer-1 specification judges its effect; QueryN.Get / MapN.Get are compared position by position with World.Get; FilterN queries must select exactly what the configuration at query time denotes (GenericFilter.tla).', '5/C18', WORLD_T + '; GenericFilter.tla, MCGeneric'),
  'C20': ('model_checking', 'Resource map semantics validated by TLC on recorded histories interleaving Add/Remove with entity operations, locks and Reset (exact pointer identity via tokens).', '5/C20', WORLD_T),
 }
 NA = {
  'C14': 'check under construction in this round',
- 'C18': 'check under construction in this round',
  'C19': 'check under construction in this round',
 }
 checks = []
@@ -42,7 +42,7 @@ for pid in sorted(C):
                        level_claimed=dict(category=cat, text=text, design_ref='DESIGN.md section ' + ref),
                        level_note=TRUST, technique=tech))
 m = dict(version=1,
-         setup_cmd='cd /verif/harness && cp /repo/go.sum . && GOFLAGS=-mod=mod GOPROXY=off GOSUMDB=off GOTOOLCHAIN=local GOWORK=off go build -tags verif -o /dev/null . && cd /verif/spec && for f in ArcheAbs TraceAbs MCAbs Masks TraceMasks MCMasks EntityPool MCPool Locks MCLocks TraceLocks Registry MCRegistry TraceRegistry MCEvents TraceEq; do tla-sany $f.tla >/dev/null || exit 1; done',
+         setup_cmd='cd /verif/harness && cp /repo/go.sum . && GOFLAGS=-mod=mod GOPROXY=off GOSUMDB=off GOTOOLCHAIN=local GOWORK=off go build -tags verif -o /dev/null . && cd /verif/spec && for f in ArcheAbs TraceAbs MCAbs Masks TraceMasks MCMasks EntityPool MCPool Locks MCLocks TraceLocks Registry MCRegistry TraceRegistry MCEvents TraceEq GenericFilter MCGeneric; do tla-sany $f.tla >/dev/null || exit 1; done',
          hooks=dict(guard='verif', enable='go build -tags verif (harness module /verif/harness, replace github.com/mlange-42/arche => /repo)',
                     baseline_off_cmd='for m in $(cat /w/out/gomods.txt); do MF=$(cd /repo/$m && . /w/out/goenv.sh && gomodflag); (cd /repo/$m && go test $MF -json -vet=off -count=1 -timeout 25m ./...); done',
                     source_commits=hook_commits, add_only=True),
